@@ -449,6 +449,11 @@ func checkC18(c C18Case, o *vcore.Obs) error {
 	o.Class("inject-" + c.Inject)
 	o.Class("mode-" + c.Mode)
 	o.Class(fmt.Sprintf("fv-%d", c.FV))
+	for _, d := range c.Snap {
+		for _, e := range d.Entries {
+			o.ClassIf(!e.Del && len(e.Val.Bytes()) == 0, "snapshot-entry-live-with-empty-value")
+		}
+	}
 	o.ClassIf(readerOn, "concurrent-reader")
 	if loadErr != nil {
 		o.Class("load-refused")
@@ -682,7 +687,12 @@ func genC18(t *rapid.T) C18Case {
 			seen[string(k)] = true
 			e := C18Entry{Key: k, TS: uint64(2*rapid.IntRange(0, 12).Draw(t, "sts") + 1), Del: rapid.IntRange(0, 3).Draw(t, "sdel") == 0}
 			if !e.Del {
-				v := rapid.SampledFrom([][]byte{[]byte("new"), []byte("y"), {0, 0}, []byte("a longer new value")}).Draw(t, "sval")
+				v := rapid.SampledFrom([][]byte{[]byte("new"), []byte("y"), {0, 0}, []byte("a longer new value"), {}}).Draw(t, "sval")
+				if len(v) == 0 && !native {
+					// live empty values in shadow mode: listed known finding shadow-empty-value (the projection deletes the key)
+					v = []byte("e")
+				}
+				// native mode: a live entry with an empty value (a deletion only under format version 1)
 				e.Val = model.ValOf(v)
 			}
 			d.Entries = append(d.Entries, e)
@@ -698,6 +708,10 @@ func genC18(t *rapid.T) C18Case {
 	case 1:
 		c.FV = uint32(rapid.IntRange(1, 2).Draw(t, "fv_old"))
 		c.CV = 1
+	case 2:
+		// written by a newer release that declares itself readable by this build: current meaning of every field
+		c.FV = uint32(rapid.IntRange(4, 6).Draw(t, "fv_new"))
+		c.CV = uint32(rapid.IntRange(0, 3).Draw(t, "cv_new"))
 	}
 	if c.FV == 1 {
 		// v1 has no flags: deletion is the empty value
